@@ -25,7 +25,7 @@ if not os.environ.get("MUTEST_WORKTREE"):
         subprocess.run(["git", "-C", snap, "checkout", "-q", "--detach", head], check=True)
         subprocess.run(["git", "-C", snap, "clean", "-qfd", "--", "coq", "harness", "gen", "lib"], check=False)
     root = snap
-env = dict(os.environ, VERIF_REPO=os.path.realpath(wt), VERIF_EVIDENCE_DIR="/tmp/mutest-evidence-%d" % os.getpid())
+env = dict(os.environ, VERIF_REPO=os.path.realpath(wt), **({"VERIF_ALT_KEY": pid} if root != "/verif" else {}), VERIF_EVIDENCE_DIR="/tmp/mutest-evidence-%d" % os.getpid())
 r = subprocess.run([root + "/check", pid, "quick"], stdout=subprocess.PIPE, stderr=subprocess.STDOUT, text=True, env=env)
 print(r.stdout[-3000:]); print("exit", r.returncode)
 for line in r.stdout.splitlines():
